@@ -39,9 +39,19 @@ def make_world(g, tag):
         if k < 0.15:
             # several paths, the leading ones absent and ignored: the present one is still replaced,
             # and the caller's bytes stay untouched
-            ph = r.choice(docs.PLACEHOLDERS)
-            steps.append((docs.any_matcher(['not.there', 'nor.this', gp], ph, False), fp, json.loads(ph), False))
-            set_path(cur, fp, json.loads(ph))
+            if docs.go_type(v) and r.random() < 0.5:
+                steps.append((docs.type_matcher(['not.there', gp], docs.go_type(v), False), fp, docs.type_placeholder(v), False))
+                set_path(cur, fp, docs.type_placeholder(v))
+            else:
+                ph = r.choice(docs.PLACEHOLDERS)
+                steps.append((docs.any_matcher(['not.there', 'nor.this', gp], ph, False), fp, json.loads(ph), False))
+                set_path(cur, fp, json.loads(ph))
+        elif k < 0.25 and any(q[1].startswith(fp + '/') for q in cand):
+            # one matcher, a container path followed by a path INSIDE it: after the first replacement
+            # (a scalar placeholder) the second path no longer exists, which must be reported
+            inner = r.choice([q for q in cand if q[1].startswith(fp + '/')])
+            ph = r.choice([x for x in docs.PLACEHOLDERS if x[0] not in '{['])
+            steps.append((docs.any_matcher([gp, inner[0]], ph), None, None, True))
         elif k < 0.55:
             ph = r.choice(docs.PLACEHOLDERS)
             steps.append((docs.any_matcher([gp], ph), fp, json.loads(ph), False))
@@ -93,6 +103,10 @@ def make_world(g, tag):
                 return 'output differs from the input with exactly %s replaced; first differences (got, want): %r' % (fp, diff or (len(fa), len(want)))
         return None
     w.add('mdoc json %s %s' % (hx(text), ' '.join(s[0] for s in steps)), ('only-target-replaced', oracle))
+    if r.random() < 0.5:
+        # the same matcher VALUES (the harness caches them per world) applied to the same document
+        # again: a matcher keeps no state between documents
+        w.add('mdoc json %s %s' % (hx(text), ' '.join(s[0] for s in steps)), ('only-target-replaced-second-use', oracle))
     return w
 
 
